@@ -240,3 +240,9 @@ Fixpoint stream_wf (T : reader_tables) (fuel : nat) (s : bytes) : bool :=
       end
     end
   end.
+
+(* the visitor that wants everything and declines nothing *)
+Definition v_full (T : reader_tables) : visitor :=
+  mkVisitor true (t_interests (rt_class T))
+    (fun _ => Some (t_interests (rt_field T))) (fun _ => Some (t_interests (rt_method T)))
+    (fun _ => Some (t_interests (rt_code T))) (fun _ => Some (t_interests (rt_rc T))).
